@@ -73,7 +73,13 @@ def _get_short_dimension_names_new(
             else:
                 dim_names[param_name] = short_name
 
-        return dim_names
+        # Names that are still not unique (same model name in several groups): use the full key
+        count_new_names: Mapping[str, int] = Counter(dim_names.values())
+
+        return {
+            param_name: param_name if count_new_names[name] > 1 else name
+            for param_name, name in dim_names.items()
+        }
 
     return potential_dim_names
 
